@@ -222,6 +222,29 @@ MANIFEST_TEXT["C01"] = {
     "design_ref": "DESIGN.md section 3 / C01",
 }
 
+PLAN["C05"] = {
+    "pkg": "c05",
+    "tests": [
+        {"name": "TestLimits", "quick": (16000, 8), "thorough": (1200000, 16)},
+    ],
+    "budget": {"quick": 600, "thorough": 5400},
+    "rule": SCENARIO_RULE + "Graphs are loop-heavy (self loops, backwards exits, A<->B enters, terminal enters), templates and inputs produce "
+            "text far beyond the limits with multi-byte characters at the cut, engine options drawn from {1,2,3,10,100} steps, {1,2,5} resumes, "
+            "{3,5,20,640,10000} template chars, {1,5,20,640} field/result chars (0 = default). Oracle per sprint: call returns within the "
+            "watchdog without panic or Go error; new steps <= MaxStepsPerSprint; step/resume limit failure => session failed with a failure "
+            "event; accepted resumes <= MaxResumesPerSession; msg_created/ivr_created text (without templating) <= MaxTemplateChars runes, "
+            "quick replies <= 64 runes, attachments <= 2048 bytes; contact_name_changed / contact_field_changed <= MaxFieldChars; "
+            "run_result_changed and stored results <= MaxResultChars; plus the C01 invariants. Non-trivial = a limit was actually reached "
+            "(step/resume limit hit or a value exactly at its maximum length); distinct by (assets, options, limits reached, sprint).",
+    "assumptions": COMMON_ASSUMPTIONS + ["MaxTemplateChars >= 3 (gocommon TruncateEllipsis needs room for the ellipsis; smaller values panic inside gocommon and are treated as an invalid configuration)"],
+}
+MANIFEST_TEXT["C05"] = {
+    "technique": "property-based testing (rapid, stateful): adversarial flow graphs x drawn engine limits x over-long inputs, validity predicate over step counts, failure events and payload lengths after every sprint",
+    "level_text": "Exploration: no generated scenario exceeded a configured limit, hung, panicked or returned a Go error; liveness is decided as 'returns within a 30 s watchdog'.",
+    "level_note": "Limits exercised up to 10^4 characters and 100 steps; services are in-process mocks.",
+    "design_ref": "DESIGN.md section 3 / C05",
+}
+
 # every property without a registered check is listed here with the reason (kept current as checks are added)
 NOT_APPLICABLE = [{"property_id": pid, "reason": "check not built yet in this round (planned in DESIGN.md); nothing is claimed for it"}
                   for pid in ALL_IDS if pid not in PLAN]
